@@ -149,6 +149,7 @@ static void do_run(char *arg) {
     if (T) { fclose(T); fwrite(tbuf, 1, tlen, stdout); free(tbuf); T = NULL; }
     if (vm->verif_fuel_exhausted) printf("R res=unsupported(fuel)");
     else printf("R res=%d", (int)r);
+    if (!vm->verif_fuel_exhausted && (r == VM_ERR_DECODE || r == VM_ERR_INVALID_OPCODE)) printf(" eip=%u efn=%u", vm->ip, vm->current_fn);
     printf(" out=");
     if (olen == 0) putchar('-'); else for (size_t i = 0; i < olen; i++) printf("%02x", (unsigned char)obuf[i]);
     printf(" top="); put_val(stdout, vm_get_result(vm));
